@@ -28,6 +28,8 @@
             "seen_edge" accepted earlier, exactly skew seconds ago                (boundary: SET-VALUED)
             "seen_out"  accepted earlier, skew+1 seconds ago                      (window over -> fresh)
             "seen_rej"  presented earlier in a proof that was *rejected*          (never accepted -> fresh)
+            "seen_xkid" accepted earlier, just now, under the OTHER configured kid (the table's step 9 speaks of the
+                        nonce, not of (kid, nonce): a replay through a second proxy identity is still a replay)
 
    Window rule (DESIGN 7a): the replay window is `skew` seconds from the cache-clock value read at acceptance. *)
 EXTENDS Naturals, Sequences, FiniteSets
@@ -39,7 +41,7 @@ CONSTANTS Ages, MacKinds, NonceKinds,            \* semantic domains for structu
 
 AllAges   == {"gtP", "eqP", "ltP", "zero", "ltN", "eqN", "gtN"}
 AllMacs   == {"ok", "key", "origin", "tamper", "frame", "noncanon"}
-AllNonces == {"fresh", "seen_in", "seen_edge", "seen_out", "seen_rej"}
+AllNonces == {"fresh", "seen_in", "seen_edge", "seen_out", "seen_rej", "seen_xkid"}
 Kids      == {"k1", "k2", "unk"}
 Reasons   == {"no_proof", "malformed", "unknown_kid", "expired", "not_yet_valid", "bad_mac", "replayed"}
 
@@ -89,7 +91,7 @@ Must(c) == <<
   c.age = "gtP",                                                     \* 6 now - ts > skew
   c.age = "gtN",                                                     \* 7 ts - now > skew
   c.mac \in {"key", "origin", "tamper", "frame"},                    \* 8 recomputed MAC does not match
-  c.nonce = "seen_in" >>                                             \* 9 nonce already seen within the window
+  c.nonce \in {"seen_in", "seen_xkid"} >>                            \* 9 nonce already seen within the window
 May(c) == <<FALSE, FALSE, FALSE, FALSE, FALSE, FALSE, FALSE,
             c.mac = "noncanon",
             c.nonce = "seen_edge" >>
@@ -117,7 +119,7 @@ AcceptOnlyClean(c)  == "ok" \in Admissible(c) =>
                           /\ c.hdr = "present" /\ ~c.multi /\ ~c.long /\ c.nf = "5" /\ c.ver
                           /\ c.kidcs /\ c.tscs /\ c.noncs /\ c.maccs /\ c.kid # "unk"
                           /\ c.age \notin {"gtP", "gtN"} /\ c.mac \in {"ok", "noncanon"}
-                          /\ c.nonce # "seen_in"
+                          /\ c.nonce \notin {"seen_in", "seen_xkid"}
 CleanAccepted(c)    == (c.hdr = "present" /\ ~c.multi /\ ~c.long /\ c.nf = "5" /\ c.ver /\ c.kidcs /\ c.tscs
                         /\ c.noncs /\ c.maccs /\ c.kid # "unk" /\ c.age \notin {"gtP", "gtN"} /\ c.mac = "ok"
                         /\ c.nonce \in {"fresh", "seen_out", "seen_rej"}) => Admissible(c) = {"ok"}
@@ -129,14 +131,22 @@ CheapFirst(c)       == (\E i \in 1..4 : Must(c)[i]) => Admissible(c) \subseteq {
 WindowTwoSided(c)   == (c.age \in {"eqP", "eqN"}) => Admissible(c) \cap {"expired", "not_yet_valid"} = {}
 
 \* ------------------------------------------------------------------ judging what the real code did
-(* observation o:
-     v   outcome of verify_proof(token, ...)         "ok" | reason code | "other:<Type>" | "na" (no token: header absent)
+(* observation o -- one presented header, observed through every entry point of the verifier:
+     v   outcome of verify_proof(token, ...) with injected clock and cache clock
+                                                     "ok" | reason code | "other:<Type>" | "na" (leg not executed)
      g   outcome of the require-mode gate called on a real falcon.Request (ProofError.reason)   same domain
+     a   outcome of the ALLOW-mode gate: never denies, but records the verifier's answer in its claims
+         ("ok" when claims.verified = "true", otherwise claims.reason)
+     w   outcome with the DEFAULT clocks (now = None -> the wall clock; cache on the monotonic clock); only executed for
+         clock relations far from the window edge (ages zero / gtP / gtN concretised with a minute of margin)
      h   [done, out, status, same, echo]   full HTTP leg through make_wsgi_app(authenticate=require_all(gate)):
            out     reason logged by the gate ("ok" when the request was let through)
            status  HTTP status
            same    the 401 (status, body, auth headers) is identical to the reference 401 of this worker
-           echo    the response contains the claimed kid or any verifier reason code                         *)
+           echo    the response contains the claimed kid or any verifier reason code
+     h2  [done, inner, status, same]       the deployment shape require_all(gate, inner): a bearer authenticator behind
+           the gate; inner = "ok" | "bad" | "absent" is the bearer credential sent along.  A proof failure must give the
+           same 401 whatever that credential is (the reference is the 401 of a request with neither header).         *)
 Bad(name, cond) == IF cond THEN {} ELSE {name}
 Outcome(x) == x \in Reasons \cup {"ok"}
 
@@ -151,6 +161,12 @@ Conforms(c, o) ==
   LET adm == Admissible(c) IN
        Leg("V", o.v, adm)
   \cup Leg("G", o.g, adm)
+  \cup Leg("A", o.a, adm)
+  \cup Leg("W", o.w, adm)
+  \cup Bad("H2_Reject401",       (o.h2.done /\ "ok" \notin adm) => o.h2.status = 401)
+  \cup Bad("H2_Uniform401",      (o.h2.done /\ "ok" \notin adm /\ o.h2.status = 401) => o.h2.same)
+  \cup Bad("H2_AcceptIffTable",  o.h2.done => ((o.h2.status # 401) => "ok" \in adm)
+                                            /\ ((adm = {"ok"} /\ o.h2.inner = "ok") => o.h2.status # 401))
   \cup Bad("H_AcceptIffTable",   o.h.done => ((o.h.status # 401) => "ok" \in adm) /\ ((adm = {"ok"}) => o.h.status # 401))
   \cup Bad("H_Reject401",        (o.h.done /\ "ok" \notin adm) => o.h.status = 401)     \* 401, never 5xx
   \cup Bad("H_Uniform401",       (o.h.done /\ o.h.status = 401) => o.h.same)           \* every failure: the same 401
